@@ -6,8 +6,10 @@ cd "$(dirname "$0")"
 export CARGO_NET_OFFLINE=true
 cargo kani --version
 cargo +nightly --version
-python3-vt -c "import z3, sys; sys.path.insert(0,'lib'); import vlib, mir, e2, e2run, lemmas, spec_smt; print('z3', z3.get_version_string())"
+python3-vt -c "import z3, sys; sys.path.insert(0,'lib'); import vlib, mir, e2, e2run, lemmas, spec_smt, skel, skelsuite, layout, samplers, hintlemmas, nttsched, ctflow, ctnative, zutil, diffnative; print('z3', z3.get_version_string())"
 /usr/bin/z3 --version
+# only needed to replay a C14 finding (native trace probes); their absence makes such a finding inconclusive, never a false alarm
+valgrind --version || echo 'valgrind not found: C14 findings cannot be replayed natively'
 mkdir -p evidence replays
 (cd models/sha3 && cargo build --offline -q) && (cd models/sha2 && cargo build --offline -q)
 echo setup ok
